@@ -28,6 +28,10 @@ def _mk_args(rng, prog, n=None, dup_types=True):
     return args
 
 
+RESP_IDENTS = {"String": "String", "u8": "u8", "u32": "u32", "u64": "u64", "i32": "i32", "i64": "i64", "bool": "bool", "Uint128": "Uint128",
+               "Addr": "Addr", "Binary": "Binary", "Coin": "Coin", "svmon::Pt": "Pt", "svmon::Shape": "Shape"}
+
+
 def resp_type(rng):
     """Query response types must be path types: sylvia's return-type extraction only
     understands `Result<Path, _>` (a tuple there makes the macro panic; see DESIGN limits)."""
@@ -52,6 +56,10 @@ def _new_handler(rng, prog, part, kind, name, safe):
          "hid": f"{part['id']}.{kind}.{name}", "part": part["id"]}
     if kind == "query":
         h["resp_ti"] = intern_type(prog, resp_type(rng))
+        ident = RESP_IDENTS.get(prog["types"][h["resp_ti"]].rust)
+        if ident and rng.random() < 0.3:
+            # explicit `resp=` with an aliased result type the macro cannot look into
+            h["resp_explicit"] = ident
     return h
 
 
@@ -134,6 +142,9 @@ def gen_program(rng, name, n_ifaces=None, customs=None, error=None, profile="gen
                 hs[1]["args"] = [dict(a) for a in hs[0]["args"]]
                 if kind == "query":
                     hs[1]["resp_ti"] = hs[0]["resp_ti"]
+                    hs[1].pop("resp_explicit", None)
+                    if hs[0].get("resp_explicit"):
+                        hs[1]["resp_explicit"] = hs[0]["resp_explicit"]
 
     # shape overlap across kinds: instantiate/migrate arg named like an enum message whose
     # body has the shape of that arg (C04)
@@ -369,6 +380,7 @@ def gen_generic_program(rng, name, n_generics=None, n_ifaces=None, iface_assoc=T
                 t = _wrap_param(rng, gp[n])
                 if t.kind != "tuple":
                     h["resp_ti"] = intern_type(p, t)
+                    h.pop("resp_explicit", None)
     # make sure a resp_only parameter really is used by some query
     for n in resp_only:
         qs = [h for h in c["handlers"] if h["kind"] == "query"]
@@ -377,6 +389,7 @@ def gen_generic_program(rng, name, n_generics=None, n_ifaces=None, iface_assoc=T
             qs = [_new_handler(rng, p, c, "query", nm, False)]
             c["handlers"].append(qs[0])
         qs[0]["resp_ti"] = intern_type(p, gp[n])
+        qs[0].pop("resp_explicit", None)
     # A bound relating two parameters: the (single) predicate of `a` mentions `b`, so a message type that
     # uses `a` but not `b` must drop it.  sylvia accepts one `Ident: Bounds` predicate per parameter (it
     # derives helper-trait items from them), and the instantiate builder needs `a: Serialize` from that
@@ -420,4 +433,5 @@ def gen_generic_program(rng, name, n_generics=None, n_ifaces=None, iface_assoc=T
                 t = _wrap_param(rng, at[rng.choice(an)])
                 if t.kind != "tuple":
                     h["resp_ti"] = intern_type(p, t)
+                    h.pop("resp_explicit", None)
     return p
